@@ -1,2 +1,46 @@
-(** C14 — excluded fields are inert and embedding equals inlining (placeholder; see PQ.ParseProofs) *)
+(** C14 — excluded fields are inert and embedding equals inlining.
+    Statements only; proofs in PQ.ParseProofs.  [Parse.v] models parse.go after
+    fix 45c28bc: [parse_root ds root] is the column tree parquetgen builds from
+    the struct declarations [ds] (parse.Fields).  parquetgen's output is a
+    function of that tree only (gen.FromStruct), so equal trees mean identical
+    generated text — which bin/check C14 also verifies byte for byte together
+    with the files written. *)
 From Coq Require Import List NArith.
+From PQ Require Import Bytes Schema Parse ParseBasics ParseProofs.
+Import ListNotations.
+
+(** Inserting a field that is unexported (incl. a leading underscore) or tagged
+    parquet:"-" — of ANY Go type: anonymous structs, funcs with named
+    parameters, maps, channels, ... — at ANY position of ANY declaration leaves
+    the column tree unchanged. *)
+Theorem C14_decorate_inert : forall ds root tname i f,
+  excluded f = true -> parse_root (decorate ds tname i f) root = parse_root ds root.
+Proof. exact decorate_inert. Qed.
+Print Assumptions C14_decorate_inert.
+
+Theorem C14_decorate_all_inert : forall ins ds root,
+  Forall (fun x : bytes * nat * fdecl => excluded (snd x) = true) ins ->
+  parse_root (decorate_all ds ins) root = parse_root ds root.
+Proof. exact decorate_all_inert. Qed.
+Print Assumptions C14_decorate_all_inert.
+
+(** Replacing any run of fields [i, i+k) of any declaration (root or nested) by
+    an embedded struct holding them gives the same column tree. *)
+Theorem C14_embed_inline : forall ds tname ename i k root fs t,
+  lookup ds tname = Some fs -> lookup ds ename = None ->
+  is_private ename = false -> prim_of_name ename = None ->
+  parse_root ds root = Some t ->
+  parse_root (embed ds tname ename i k) root = Some t.
+Proof. exact embed_inline. Qed.
+Print Assumptions C14_embed_inline.
+
+Theorem C14_embed_inline_eq : forall ds tname ename i k root fs,
+  lookup ds tname = Some fs -> lookup ds ename = None ->
+  is_private ename = false -> prim_of_name ename = None ->
+  unreferenced ds ename -> root <> ename ->
+  parse_root (embed ds tname ename i k) root = parse_root ds root.
+Proof. exact embed_inline_eq. Qed.
+Print Assumptions C14_embed_inline_eq.
+
+Theorem C14_excluded_field_skipped : forall f, excluded f = true -> raw_of f = RSkip.
+Proof. exact excluded_skipped. Qed.
